@@ -789,6 +789,7 @@ def run(ctx):
     else:
         ok, info = False, {"errors": [("Properties_C01.v", 0, "missing")]}
     proof_broken = (not ok) or tie_broken is not None
+    ctx.log("proof stage: %s (%d theorems)" % ("OK" if ok else "FAILED", len(ctx.obligations)))
     if not ok:
         ctx.log("proof stage failed: %s" % (info.get("errors") or info.get("forbidden") or info.get("illegal_axioms")))
     # (3) build
@@ -801,6 +802,7 @@ def run(ctx):
                           {"translator": tie_broken, "proof": info, "extract": str(ex)[:2000]}, no_failing_input=True)
             return
         raise
+    ctx.log("harness and extracted model built")
     # (4a) tables
     table_problems = tables_stage(ctx, cpp, ml)
     ctx.log("tables compared: %s" % ("OK" if not table_problems else "%d problems" % len(table_problems)))
